@@ -199,7 +199,7 @@ def observe_df(df, n_extra):
     out = {}
     for c in cols:
         vals = df[c].tolist()
-        out[c] = [int(v) if c in ("id", "type", "pid") and float(v) == int(v) else float(v) for v in vals]
+        out[c] = [v if isinstance(v, int) and not isinstance(v, bool) else (int(v) if c in ("id", "type", "pid") and float(v) == int(v) else float(v)) for v in vals]
     return out
 
 
@@ -724,7 +724,7 @@ def gen_calls(tier):
 
 # ------------------------------------------------------------------ sort space
 
-ID_MAPS = ("ident", "plus1", "10i+3", "reversed", "scattered")
+ID_MAPS = ("ident", "plus1", "10i+3", "reversed", "scattered", "huge53", "huge62")
 SCATTER = [7, 2, 9, 4, 11, 5, 13, 1]
 
 
@@ -737,6 +737,10 @@ def id_map(kind, n):
         return [10 * i + 3 for i in range(n)]
     if kind == "reversed":
         return [n - 1 - i for i in range(n)]
+    if kind == "huge53":  # odd integers just above 2^53: distinct as integers, not representable as doubles
+        return [2**53 + 1 + 2 * (n - 1 - i) for i in range(n)]
+    if kind == "huge62":  # 64-bit identifiers, neighbours that collapse when rounded to a double
+        return [2**62 + 1 + 3 * i for i in range(n)]
     return SCATTER[:n]
 
 
@@ -825,7 +829,7 @@ def gen_sort(tier):
                 orders = itertools.permutations(range(n))
             else:
                 orders = [tuple((i + s) % n for i in range(n)) for s in range(n)] + [tuple(reversed(range(n)))]
-            maps = ID_MAPS if (n <= 4 or quick) else ("plus1", "10i+3", "scattered")
+            maps = ID_MAPS if (n <= 4 or quick) else ("plus1", "10i+3", "scattered", "huge53")
             for order in orders:
                 for mk in maps:
                     yield [list(p), list(order), mk]
